@@ -248,4 +248,21 @@ theorem cluster_is_its_flags_in_order (E : Env) (help : HelpFn) (s : PS) (xs : L
   rw [hsplit]
   simp only
   exact parseShortLoop_cluster E help _ xs _ s 0 (by have := flatMap_encodeRune_length xs; omega) hall
+/-- **An attached argument is the argument — the empty one too.**  For an option that takes an argument, whatever its
+    `optional` mark and its `optional-value` say: `--name=` (an attached, EMPTY argument) hands the empty text to
+    `Option.Set`, where it is converted and checked like any other text; the optional value is for the bare option. -/
+theorem attached_empty_argument_is_handed_to_set (E : Env) (help : HelpFn) (s : PS) (r : ORef) (canarg : Bool)
+    (hc : (s.P.opt r).ty.canArgument = true) :
+    parseOption E help s r canarg (some []) = finishSet s r (optSet E help s.P r (some []) s.log) := by
+  unfold parseOption
+  simp [hc, takeArgument, unquoteIfPossible]
+
+/-- … and so is every attached argument that does not start with a double quote -/
+theorem attached_argument_is_handed_to_set (E : Env) (help : HelpFn) (s : PS) (r : ORef) (canarg : Bool)
+    (c : Nat) (a : Bytes) (hq : c ≠ 0x22) (hc : (s.P.opt r).ty.canArgument = true) :
+    parseOption E help s r canarg (some (c :: a)) = finishSet s r (optSet E help s.P r (some (c :: a)) s.log) := by
+  unfold parseOption
+  simp [hc, takeArgument, unquoteIfPossible, hq]
+
+
 end GoFlags.C02
